@@ -60,6 +60,7 @@ const (
 	ErrUnsupportedType   = "unsupported type '%T'"
 	ErrTemplateNotFound  = "template not found"
 	ErrUseStmtNotAllowed = "the 'use' statement is not allowed in a layout file. It will cause infinite recursion"
+	ErrUseStmtInInsert   = "the 'use' statement is not allowed inside an 'insert' statement. It will cause infinite recursion"
 
 	// API errors
 	ErrFuncAlreadyDefined        = "custom function '%s' already defined for '%s'"
